@@ -192,7 +192,7 @@ def run_time_cases(cases, zone, mode, frontend="wsgi"):
 # --- structural filters -------------------------------------------------------------
 
 # concrete texts of the tokens CalQuery.tla uses for non-ASCII text
-TEXT = {"NONASCII": "Caf\u00e9 Z\u00fcrich", "NONASCII-UP": "CAF\u00e9 Z\u00fcRICH",
+TEXT = {"EMPTYVAL": "", "NONASCII": "Caf\u00e9 Z\u00fcrich", "NONASCII-UP": "CAF\u00e9 Z\u00fcRICH",
         "ESCAPED": "Budget review, Q3; final\nnotes \\ end", "ESCAPED-UP": "BUDGET REVIEW, Q3; FINAL\nNOTES \\ END",
         "FOLDED": "A rather long summary that does not fit into one content line of seventy-five octets and is folded",
         "FOLDED-UP": "A RATHER LONG SUMMARY THAT DOES NOT FIT INTO ONE CONTENT LINE OF SEVENTY-FIVE OCTETS AND IS FOLDED"}
